@@ -1,13 +1,14 @@
 #!/usr/bin/env python3
 # Mutation sanity check for unit SM (AGENT_GUIDE "Mutation sanity check").
-# usage: tools/sm_mutate.py <label> <repo-relative file> <old text> <new text> [nth occurrence] [verus args...]
+# usage: [SM_UNIT=sm2] tools/sm_mutate.py <label> <repo-relative file> <old text> <new text> [nth occurrence] [verus args...]
 # Copies the source files of the unit into a scratch root (.work/sm/mrepo), replaces ONE occurrence of <old> by <new>, runs vx on
 # the scratch root and then verus on the WHOLE generated file, and prints the failed obligations. /repo is never touched.
 import sys, os, shutil, subprocess, time, re
 label, rel, old, new = sys.argv[1:5]
 nth = int(sys.argv[5]) if len(sys.argv) > 5 and sys.argv[5].isdigit() else 1
 extra = [a for a in sys.argv[5:] if not a.isdigit()]
-root = '/verif/.work/sm/mrepo'
+unit = os.environ.get('SM_UNIT', 'sm')          # SM_UNIT=sm2 for contracts/sm2.vx
+root = f'/verif/.work/sm/mrepo_{label}'
 os.makedirs('/verif/.work/sm/mut', exist_ok=True)
 files = ['curve25519-dalek/src/edwards.rs', 'curve25519-dalek/src/window.rs', 'curve25519-dalek/src/scalar.rs', 'curve25519-dalek/src/traits.rs',
          'curve25519-dalek/src/backend/serial/curve_models/mod.rs',
@@ -23,7 +24,8 @@ for _ in range(nth):
 s = s[:idx] + new + s[idx + len(old):]
 open(f'{root}/{rel}', 'w').write(s)
 out = f'/verif/.work/sm/mut/mut_{label}.rs'
-r = subprocess.run(['/verif/vx/target/release/vx', root, '/verif/contracts/sm.vx', out, out + '.json'], capture_output=True, text=True)
+r = subprocess.run(['/verif/vx/target/release/vx', root, f'/verif/contracts/{unit}.vx', out, out + '.json'], capture_output=True, text=True)
+shutil.rmtree(root, ignore_errors=True)
 if r.returncode != 0:
     print(f'== {label}: vx exit {r.returncode} (undecided-extraction)', r.stderr.strip().split('\n')[-1]); sys.exit(0)
 t = time.time()
